@@ -188,6 +188,11 @@ func runC06(out io.Writer, seed int64, maxLen int, nRandom int) {
 	// floats
 	floats := []float64{0, math.Copysign(0, -1), 1, -1, 0.5, 0.1, 1e21, 1e-7, 1e300, -1e300, 5e-324, math.MaxFloat64,
 		math.SmallestNonzeroFloat64, 123456789.125, 1e20, 1e22, 2.2250738585072014e-308, 4.9e-324, 1.7976931348623157e308}
+	// whole numbers at and next to the integer-type boundaries (a formatting fast path through an integer type)
+	for _, e := range []int{7, 8, 15, 16, 24, 31, 32, 52, 53, 54, 62, 63, 64, 65, 127, 128} {
+		p := math.Ldexp(1, e)
+		floats = append(floats, p, -p, math.Nextafter(p, 0), math.Nextafter(p, math.Inf(1)), -math.Nextafter(p, 0), -math.Nextafter(p, math.Inf(1)))
+	}
 	for i := 0; i < nRandom/4+20; i++ {
 		f := math.Float64frombits(rng.Uint64())
 		if math.IsNaN(f) || math.IsInf(f, 0) {
